@@ -32,6 +32,7 @@ type c06World struct {
 	events   int64
 	blocked  []*c06Block // reloads currently blocked, FIFO
 	all      []*c06Block // every block ever created
+	byPath   map[string]*tracedDBI // reload path -> the instance that reload created
 	scripted map[string]bool
 }
 
@@ -168,7 +169,14 @@ func (t *tracedDBI) Reload(path string) (db.DBI, error) {
 	}
 	switch kind {
 	case "NO", "BN":
-		return t.w.newInst(true), nil
+		n := t.w.newInst(true)
+		t.w.mu.Lock()
+		if t.w.byPath == nil {
+			t.w.byPath = map[string]*tracedDBI{}
+		}
+		t.w.byPath[path] = n
+		t.w.mu.Unlock()
+		return n, nil
 	case "SO", "BS":
 		return t, nil
 	case "OE", "BF":
@@ -183,11 +191,37 @@ func (t *tracedDBI) Reload(path string) (db.DBI, error) {
 	return nil, fmt.Errorf("unknown scripted reload %q", path)
 }
 
+// ---- hook dispatch: a reload whose payload is registered here gets a callback at r:reloaded ----
+
+var (
+	c06HookOnce sync.Once
+	c06Hooks    sync.Map // payload -> func()
+)
+
+func c06InstallHook() {
+	c06HookOnce.Do(func() {
+		dnsserver.SetVerifHook(func(point string, arg interface{}) {
+			if point != "r:reloaded" {
+				return
+			}
+			if sig, ok := arg.(dnsserver.ReloadSignal); ok {
+				if f, ok := c06Hooks.Load(sig.Payload); ok {
+					f.(func())()
+				}
+			}
+		})
+	})
+}
+
+var c06WorldSeq int64
+
 // ---- operation sequences ----
 
 // ops: A acquire, Uo/Un use oldest/newest reader, Ro/Rn release oldest/newest reader,
 // reload kinds, X unblock the oldest blocked reload, S shutdown (terminal).
-var c06Ops = []string{"A", "Uo", "Un", "Ro", "Rn", "NO", "SO", "OE", "NV", "SV", "BN", "BS", "BF", "X", "S"}
+// NOq = NO during which (between the return of db.Reload and the switch of the served DB) another goroutine
+// acquires a reader and uses it (only through FBDNSDB; the direct mode has no such window).
+var c06Ops = []string{"A", "Uo", "Un", "Ro", "Rn", "NO", "SO", "OE", "NV", "SV", "BN", "BS", "BF", "X", "S", "NOq"}
 
 type c06Reader struct {
 	rd   db.Reader
@@ -232,6 +266,11 @@ func c06Applicable(seq []string) bool {
 			shut = true
 		case "BN", "BS", "BF":
 			blocked++
+		case "NOq":
+			if readers >= 3 {
+				return false
+			}
+			readers++
 		}
 	}
 	return true
@@ -313,6 +352,43 @@ func c06Run(seq []string, viaHandler bool) (viol []string, applicable bool, even
 			} else {
 				cur.Destroy()
 			}
+		case "NOq":
+			if !viaHandler {
+				return nil, false, 0
+			}
+			nreload++
+			path := fmt.Sprintf("NO#%d-w%d", nreload, atomic.AddInt64(&c06WorldSeq, 1))
+			c06InstallHook()
+			got := make(chan c06Reader, 1)
+			c06Hooks.Store(path, func() {
+				// another goroutine asks for a reader right now; in correct code it has to wait for the switch
+				go func() {
+					rd, err := h.AcquireReader()
+					if err != nil {
+						got <- c06Reader{}
+						return
+					}
+					rd.ForEach([]byte("k"), func([]byte) error { return nil })
+					got <- c06Reader{rd: rd}
+				}()
+				select {
+				case r := <-got:
+					got <- r // acquired inside the window: keep it for after the reload
+				case <-time.After(2 * time.Millisecond):
+				}
+			})
+			rerr := h.Reload(*dnsserver.NewFullReloadSignal(path))
+			c06Hooks.Delete(path)
+			if rerr == nil {
+				w.mu.Lock()
+				curInst = w.byPath[path]
+				w.mu.Unlock()
+			}
+			if r := <-got; r.rd != nil {
+				// whichever backend the reader got, it must be the served one by now or stay open until released
+				r.inst = servedInst()
+				readers = append(readers, r)
+			}
 		default: // a reload
 			nreload++
 			path := fmt.Sprintf("%s#%d", op, nreload)
@@ -331,8 +407,9 @@ func c06Run(seq []string, viaHandler bool) (viol []string, applicable bool, even
 			// bookkeeping of the served instance: a successful NO switches to the instance this reload created
 			// (on a loaded machine even NO can exceed the 1 ms reload timeout; then nothing switches)
 			if op == "NO" && rerr == nil {
+				// (not "the last instance created": a reload that timed out before its goroutine ran creates its instance late)
 				w.mu.Lock()
-				curInst = w.insts[len(w.insts)-1]
+				curInst = w.byPath[path]
 				w.mu.Unlock()
 			}
 			_ = same
@@ -432,7 +509,7 @@ type c06Case struct {
 }
 
 func runC06(r *report.Run) {
-	r.SetRule("an instrumented backend (open/use/close events per instance, scripted reload outcomes: new-ok NO, same-ok SO, open-error OE, new-without-validation-key NV, same-without-validation-key SV, and blocked-until-released variants BN/BS/BF that exceed the 1 ms reload timeout and finish late) is driven through db.DB directly and through FBDNSDB by ALL operation sequences over {acquire (<=3 readers), use/release oldest|newest reader, the 8 reload outcomes, unblock, shutdown} up to a depth bound (reader-symmetric duplicates and sequences continuing after shutdown are skipped), then by seeded random longer ones; every history is completed (late reloads released, shutdown, readers released, goroutines settled). Invariants: no call on a closed instance, no close while a call runs, close count <= 1, served and pinned instances stay open, every instance ever opened is closed exactly once at the end. non-trivial = applicable sequence containing a reload and a reader; distinct by sequence")
+	r.SetRule("an instrumented backend (open/use/close events per instance, scripted reload outcomes: new-ok NO, same-ok SO, open-error OE, new-without-validation-key NV, same-without-validation-key SV, and blocked-until-released variants BN/BS/BF that exceed the 1 ms reload timeout and finish late) is driven through db.DB directly and through FBDNSDB by ALL operation sequences over {acquire (<=3 readers), use/release oldest|newest reader, the 8 reload outcomes, a new-ok reload during which another goroutine acquires and uses a reader between the return of db.Reload and the switch (verif hook r:reloaded), unblock, shutdown} up to a depth bound (reader-symmetric duplicates and sequences continuing after shutdown are skipped), then by seeded random longer ones; every history is completed (late reloads released, shutdown, readers released, goroutines settled). Invariants: no call on a closed instance, no close while a call runs, close count <= 1, served and pinned instances stay open, every instance ever opened is closed exactly once at the end. non-trivial = applicable sequence containing a reload and a reader; distinct by sequence")
 	r.Assume("the instrumented backend marks a slow reload as a call in progress on the old backend for its whole duration (as a RocksDB catch-up is)")
 	depth := r.Pick(4, 5)
 	var cur []string
@@ -455,14 +532,14 @@ func runC06(r *report.Run) {
 			viol, ok, ev := c06Run(seq, via)
 			atomic.AddInt64(&total, 1)
 			if !ok {
-				return
+				continue
 			}
 			atomic.AddInt64(&applicable, 1)
 			r.Eval(1)
 			r.Count("backend_events", ev)
 			hasReload, hasReader := false, false
 			for _, op := range seq {
-				if len(op) == 2 && op != "Uo" && op != "Un" && op != "Ro" && op != "Rn" {
+				if (len(op) == 2 && op != "Uo" && op != "Un" && op != "Ro" && op != "Rn") || op == "NOq" {
 					hasReload = true
 				}
 				if op == "A" {
@@ -513,7 +590,7 @@ func runC06(r *report.Run) {
 	r.Count("exhaustive_depth", int64(depth))
 	r.Count("sequences_tried_incl_inapplicable", atomic.LoadInt64(&total))
 	r.Set("exhaustive", true)
-	r.Set("exhaustive_note", fmt.Sprintf("all sequences up to depth %d over the 15 operations (inapplicable ones skipped)", depth))
+	r.Set("exhaustive_note", fmt.Sprintf("all sequences up to depth %d over the 16 operations (inapplicable ones skipped)", depth))
 	// random longer sequences
 	rng := rand.New(rand.NewSource(r.Seed*37 + 6))
 	for i := 0; i < r.Pick(3000, 60000); i++ {
